@@ -42,6 +42,7 @@ func VH_C01_C02_TamperAfterSigning() {
 	_, foreignCertBytes, _ := sxKey(1)
 	fetched := certBytes
 	altered := true
+	payloadEdit := false // edits of the MI-encoded stream: what must hold is that the DECODED payload is the original
 	b12 := ver != version.Version1b3
 	nm := 15
 	switch m := vh.Choose(nm); m {
@@ -58,12 +59,14 @@ func VH_C01_C02_TamperAfterSigning() {
 	case 4:
 		e.ResponseHeaders.Set("X-B", "1")
 	case 5:
+		payloadEdit = true
 		vh.Assume(len(e.Payload) > 0)
 		i := vh.Choose(len(e.Payload))
 		mask := vh.Byte("pmask")
 		vh.Assume(mask != 0)
 		e.Payload[i] ^= mask
 	case 6:
+		payloadEdit = true
 		if vh.Choose(2) == 0 {
 			vh.Assume(len(e.Payload) > 0)
 			e.Payload = e.Payload[:len(e.Payload)-1]
@@ -77,12 +80,10 @@ func VH_C01_C02_TamperAfterSigning() {
 		vh.Assume(b12)
 		e.RequestHeaders.Set("Accept", "x")
 	case 9:
-		d := vh.Int64("ddate")
-		vh.Assume(d != 0 && d > -100000 && d < 100000)
+		d := []int64{-1, 1, 3601, -100000}[vh.Choose(4)] // concrete: decimal rendering of a symbolic int64 is out of solver reach
 		sxEditSignature(e, func(p structuredheader.Parameters) { p["date"] = p["date"].(int64) + d })
 	case 10:
-		d := vh.Int64("dexp")
-		vh.Assume(d != 0 && d > -100000 && d < 100000)
+		d := []int64{-1, 1, -3601, 604800}[vh.Choose(4)]
 		sxEditSignature(e, func(p structuredheader.Parameters) { p["expires"] = p["expires"].(int64) + d })
 	case 11:
 		mask := vh.Byte("cmask")
@@ -117,7 +118,9 @@ func VH_C01_C02_TamperAfterSigning() {
 	out, ok := e.Verify(time.Unix(t, 0), fetch, sxLogger())
 	inWindow := t >= sxDate && t <= sxExpires
 	if ok {
-		vh.Assert(!altered, "verification succeeds only if nothing that was signed has been altered")
+		// (an edit of the encoded stream that leaves the decoded payload intact - e.g. a larger record size in
+		// the unauthenticated size field of a single-record stream - is not an alteration of what was signed)
+		vh.Assert(!altered || payloadEdit, "verification succeeds only if nothing that was signed has been altered")
 		vh.Assert(inWindow, "verification succeeds only inside the signed [date, expires] window")
 		vh.Assert(bytes.Equal(out, payload), "the payload handed back is the original payload")
 	}
@@ -128,5 +131,32 @@ func VH_C01_C02_TamperAfterSigning() {
 		vh.Reach("tamper-reject")
 	} else {
 		vh.Reach("time-reject")
+	}
+}
+
+// VH_C01_C09_Timestamps: verifyTimestamps for ALL date, expires, verification second and nanosecond values with
+// |x| <= 2^60 (symbolic 64-bit integers; time.Unix / Sub with saturation / Before / After interpreted from the real
+// time package): accepted iff date <= now <= expires and expires - date <= 604800 s, evaluated independently in
+// integer arithmetic (now = t + nsec/1e9).
+func VH_C01_C09_Timestamps() {
+	vh.MustReach("accept", "too-long", "not-yet", "expired")
+	date, expires, t := vh.Int64("date"), vh.Int64("expires"), vh.Int64("t")
+	ns := vh.Int64("nsec")
+	const lim = int64(1) << 60
+	vh.Assume(date >= -lim && date <= lim && expires >= -lim && expires <= lim && t >= -lim && t <= lim && ns >= 0 && ns < 1000000000)
+	err := verifyTimestamps(&Signature{Date: date, Expires: expires}, time.Unix(t, ns))
+	tooLong := expires-date > 604800 // no overflow: |values| <= 2^60
+	notYet := t < date
+	expired := t > expires || (t == expires && ns > 0)
+	vh.Assert((err == nil) == (!tooLong && !notYet && !expired), "accepted iff date <= now <= expires and lifetime <= 7 days")
+	switch {
+	case err == nil:
+		vh.Reach("accept")
+	case tooLong:
+		vh.Reach("too-long")
+	case notYet:
+		vh.Reach("not-yet")
+	default:
+		vh.Reach("expired")
 	}
 }
